@@ -451,12 +451,14 @@ impl Display for Type {
 }
 
 /// Is `lhs` a subtype of `rhs`? Returns false if `lhs` is an error
-/// type.
+/// type or `NoValue`, the bottom types that are subtypes of
+/// everything.
 ///
 /// This is useful when doing checks on code with type errors, where
-/// we exclude error types to avoid cascading errors.
+/// we exclude error types to avoid cascading errors, and when a check
+/// needs to know that a value really has the type `rhs`.
 pub(crate) fn is_subtype_not_error(lhs: &Type, rhs: &Type) -> bool {
-    !lhs.is_error() && is_subtype(lhs, rhs)
+    !lhs.is_error() && !lhs.is_no_value() && is_subtype(lhs, rhs)
 }
 
 /// Is `lhs` a subtype of `rhs`, i.e. is `lhs <: rhs` in type system
